@@ -145,6 +145,9 @@ def run(ctx) -> None:
     ctx.check(assigns == ["BaseObserver.__init__"], RS, "BaseObserver._lock bound once", f"observer lock (re)bound in {assigns}", P.cls("BaseObserver").loc)
 
     dispatch_shape(ctx, None, None, RL, only_live=True, RLOCK=RS)
+    # unschedule() stops the emitter it finds under the watch: there must be no second one (the C13 rule, shared)
+    RONE = ctx.rule("C05/one-emitter-per-watch", "an emitter is constructed only after a failed membership test of the watch in the emitter map, under the lock (instance shared with C13): a second emitter for an equal watch is not the one unschedule() stops and keeps queueing events after it returned", floor=1)
+    ctx.borrow("c13", "C13/one-emitter-per-watch", RONE)
 
     # ---------------------------------------------------------------- stop-and-join (must-effects)
     def calls_in_order(p, pat_stop, pat_join):
